@@ -74,11 +74,34 @@ namespace
     // the exception object of script op 11: NOT derived from std::exception
     struct HgvForeign { std::int64_t v; };
 
+    // the text thrown by script op 8 with message id a and requested total length len (0 = the short form):
+    // "hgv boom <a>" or "hgv boom <a> <filler>", the filler (letters only, a function of a) padding to exactly len
+    std::string make_msg(std::int64_t a, std::int64_t len)
+    {
+        std::string m = "hgv boom " + std::to_string(a);
+        if (len <= (std::int64_t)m.size() + 1) { return m; }
+        m += ' ';
+        for (std::int64_t i = 0; (std::int64_t)m.size() < len; ++i) { m += (char)('a' + (int)(((a % 26 + 26) + i * 7) % 26)); }
+        return m;
+    }
+
     // loose decoding, for the exception that escapes the whole run (the root decorates it with the node identity)
     std::int64_t msg_code(const std::string &w)
     {
         const auto p = w.find("hgv boom ");
-        if (p != std::string::npos) { return 100 + std::atoll(w.c_str() + p + 9); }
+        if (p != std::string::npos)
+        {
+            const std::int64_t a = std::atoll(w.c_str() + p + 9);
+            std::size_t        q = p + 9;
+            while (q < w.size() && (w[q] == '-' || (w[q] >= '0' && w[q] <= '9'))) { ++q; }
+            if (q < w.size() && w[q] == ' ' && q + 1 < w.size() && w[q + 1] >= 'a' && w[q + 1] <= 'z')
+            {
+                std::size_t r = q + 1;
+                while (r < w.size() && w[r] >= 'a' && w[r] <= 'z') { ++r; }
+                return 100 + a + 1000000 * (std::int64_t)(r - p);   // the long form: id + total length
+            }
+            return 100 + a;
+        }
         if (w.find("in the past") != std::string::npos) { return 3; }
         if (w.find("paused with no resolver") != std::string::npos) { return 7; }
         if (w.find("unknown error") != std::string::npos) { return 2; }
@@ -98,6 +121,12 @@ namespace
             bool              ok   = k < rest.size();
             for (std::size_t j = k; j < rest.size(); ++j) { ok = ok && rest[j] >= '0' && rest[j] <= '9'; }
             if (ok) { return 100 + std::atoll(rest.c_str()); }
+            // the long form: the WHOLE text, including its length, must be what the thrower threw
+            const std::int64_t a = std::atoll(rest.c_str());
+            if (w == make_msg(a, (std::int64_t)w.size()) && w.size() > boom.size() + std::to_string(a).size() + 1)
+            {
+                return 100 + a + 1000000 * (std::int64_t)w.size();
+            }
         }
         if (w == "Graph cannot schedule a node in the past") { return 3; }
         if (w == "unknown error") { return 2; }
@@ -195,7 +224,7 @@ namespace
                     break;
                 }
                 case 7: view.graph_value()->schedule_node(i, dt(us(now) + op.a)); break;
-                case 8: throw std::runtime_error("hgv boom " + std::to_string(op.a));
+                case 8: throw std::runtime_error(make_msg(op.a, op.b));
                 case 11: throw HgvForeign{op.a};
                 case 9:
                 case 12:
